@@ -247,11 +247,25 @@ def draw_history(data, tier):
     P._CUR_POOL.clear()
     ntw = data.draw(st.sampled_from([2, 2, 3]))
     twins = [{'sym': 'U1', 'fermionic': cfg['fermionic']}]
-    for _ in range(ntw - 1):
-        sym = data.draw(st.sampled_from(twin_syms))
-        ferm = data.draw(st.sampled_from([False, True]))
+    def ferm_options(sym):
+        ns = len(C.MODULI[sym])
         if sym == 'Z3':
-            ferm = False
+            return [False]
+        opts = [False, True]
+        if ns == 2:
+            opts += [[True, False], [False, True]]
+        if ns == 3:
+            opts += [[False, False, True], [True, True, False], [True, False, False]]
+        return opts
+
+    for k in range(ntw - 1):
+        if k == 1 and len(ferm_options(twins[1]['sym'])) > 2 and P.chance(data, 1, 2):
+            # the same product symmetry again with another statistics flag: layouts coincide, only `fermionic` tells the twins apart
+            sym = twins[1]['sym']
+            ferm = data.draw(st.sampled_from([o for o in ferm_options(sym) if o != twins[1]['fermionic']]))
+        else:
+            sym = data.draw(st.sampled_from(twin_syms))
+            ferm = data.draw(st.sampled_from(ferm_options(sym)))
         twins.append({'sym': sym, 'fermionic': ferm})
     # interleaving: a sequence of (program index) with every program's steps in order, plus cache operations
     counts = [len(prog['steps'])] * ntw
@@ -370,4 +384,4 @@ def execute_history(desc):
 
 
 def parts(tier):
-    return [HypPart('histories', draw_history, execute_history, {'quick': 700, 'thorough': 25000})]
+    return [HypPart('histories', draw_history, execute_history, {'quick': 5000, 'thorough': 25000})]
